@@ -265,7 +265,10 @@ func runRealWatcher(c *engine.Ctx, cs *RWCase, dir string, replay bool) {
 
 	cmd.Stdout = &stdout
 	cmd.Stderr = &stderr
+
+	c.AwaitingChild(true)
 	werr := cmd.Run()
+	c.AwaitingChild(false)
 
 	if replay {
 		fmt.Printf("replay: guarded run: %s; real watcher process: err=%v stdout=%s stderr(first lines)=%s\n", verdict, werr,
